@@ -3,7 +3,7 @@ From Coq Require Import List String.
 From VQ.Gen Require Import p_select.
 Import ListNotations.
 Open Scope string_scope.
-Lemma pin_p_select : p_select =
+Definition pinned_p_select : list string :=
   ["gumbel.ind=sampling_logits.argmax(dim=dim)";
    "gumbel.sampling_logits=logits / temperature + gumbel_noise(logits)";
    "gumbel.sampling_logits=logits";
@@ -35,4 +35,5 @@ Lemma pin_p_select : p_select =
    "latent.index=torch.stack([torch.argmin(distance(z[..., i, None], self.values_per_latent[i]), dim=-1) for i in range(self.codebook_dim)], dim=-1)";
    "latent.quantize=torch.stack([self.values_per_latent[i][index[..., i]] for i in range(self.codebook_dim)], dim=-1)";
    "latent.distance=torch.abs(x - y)"].
+Lemma pin_p_select : p_select = pinned_p_select.
 Proof. reflexivity. Qed.
